@@ -340,12 +340,17 @@ def g_xcopy4(rng, cfg):
     return [], kw
 
 
+def _spc5(d):
+    """SPC-5 renamed 'target' to 'cscd' in the descriptor keys"""
+    return {k.replace("target_descriptor", "cscd_descriptor"): v for k, v in _copy(d).items()}
+
+
 def g_xcopy5(rng, cfg):
     kw = {}
     if rng.random() < 0.7:
-        kw["cscd_descriptor_list"] = [_copy(TGT_DESC) for _ in range(rng.randrange(3))]
+        kw["cscd_descriptor_list"] = [_spc5(TGT_DESC) for _ in range(rng.randrange(3))]
     if rng.random() < 0.7:
-        kw["segment_descriptor_list"] = [_copy(SEG_B2B) for _ in range(rng.randrange(3))]
+        kw["segment_descriptor_list"] = [_spc5(SEG_B2B) for _ in range(rng.randrange(3))]
     if rng.random() < 0.4:
         kw["list_identifier"] = rng.randrange(1 << 16)
     if rng.random() < 0.4:
